@@ -80,6 +80,78 @@ def large_conflict_terms(fb):
     return terms, site
 
 
+def in_final_rules(rep, fb, rule):
+    """LargeMicroStep::isInFinal agrees with Appendix D isInFinalState (shared by C03 R03.3 and C01 R01.20)"""
+    # ---- R03.3 isInFinal: pseudo-states are neutral in the conjunction over a parallel's children
+    iif = fb.fn('uscxml::LargeMicroStep::isInFinal')
+    sw = [n for n in iif.walk() if n['k'] == 'SwitchStmt']
+    if not sw:
+        raise AnalysisBroken('LargeMicroStep::isInFinal: switch over the state kind not found')
+    arms = tab.switch_arms(sw[0])
+    tail_returns = [tab.const_of(n['c'][0]) for n in (iif.d['body'].get('c') or []) if n['k'] == 'ReturnStmt' and n.get('c')]
+
+    def arm_returns(a):
+        vals = []
+        for st in a['eff']:
+            for x in sub(st):
+                if x['k'] == 'ReturnStmt' and x.get('c'):
+                    vals.append(tab.const_of(x['c'][0]))
+        if not tab.ends_control(a['eff']) or (a['eff'] and a['eff'][-1]['k'] == 'BreakStmt' and not vals):
+            vals += tail_returns      # falls out of the switch to the function's trailing return
+        return vals
+    def kinds(a):
+        out = set()
+        x = a['node']
+        while x is not None and x['k'] in ('CaseStmt', 'DefaultStmt'):
+            if x['k'] == 'CaseStmt':
+                out |= {m[0] for s_ in sub(x['c'][0]) for m in (s_.get('mac') or []) if m[0].startswith('USCXML_STATE_')}
+            x = x['c'][-1] if x.get('c') else None
+        return out
+    explicit = {}
+    dflt = None
+    for a in arms:
+        for k_ in kinds(a):
+            explicit[k_] = a
+        if a['default']:
+            dflt = a
+    for k_ in ('USCXML_STATE_HISTORY_DEEP', 'USCXML_STATE_HISTORY_SHALLOW'):
+        a = explicit.get(k_, dflt)
+        vals = arm_returns(a) if a is not None else tail_returns
+        rep.check(bool(vals) and all(v == 1 for v in vals), rule, 'isInFinal|' + k_[13:], locstr(a['node']) if a is not None else iif.where(),
+                  'a history pseudo-state among a parallel\'s children counts as %s in LargeMicroStep::isInFinal (it must be neutral, i.e. true: the fast engine never sees pseudo-states in the configuration)' % vals)
+    want = {'USCXML_STATE_FINAL': [1], 'USCXML_STATE_ATOMIC': [0]}
+    for k_, w in want.items():
+        a = explicit.get(k_)
+        if a is None:
+            raise AnalysisBroken('isInFinal: no arm for %s' % k_)
+        rep.check(arm_returns(a) == w, rule, 'isInFinal|' + k_[13:], locstr(a['node']), 'kind %s returns %s' % (k_[13:], arm_returns(a)))
+
+    # a compound state is in a final state only through an ACTIVE child that IS a <final> (Appendix D isInFinalState)
+    ca = explicit.get('USCXML_STATE_COMPOUND')
+    if ca is None:
+        raise AnalysisBroken('isInFinal: no arm for USCXML_STATE_COMPOUND')
+    arm_nodes = [x for st in ca['stmts'] for x in sub(st)]
+    problems = []
+    if any(x.get('callee', {}).get('q', '').endswith('LargeMicroStep::isInFinal') for x in arm_nodes):
+        problems.append('recurses into the active child (a completed <parallel> child then makes the compound state "final")')
+
+    def mentions_final(n):
+        return any(m[0] == 'USCXML_STATE_FINAL' for x in sub(n) for m in (x.get('mac') or []))
+    for x in arm_nodes:
+        if x['k'] == 'ReturnStmt' and x.get('c'):
+            v = tab.const_of(x['c'][0])
+            if v == 0:
+                continue
+            guarded = any(a_['k'] == 'IfStmt' and mentions_final(a_['c'][0]) for a_ in iif.ancestors(x) if any(y is a_ for y in arm_nodes))
+            if v == 1 and not guarded:
+                problems.append('returns true at line %d without a test that a child is a <final> (a region that has no active child yet, during document-order entry, counts as final)' % x['loc'][1])
+            if v is None and not mentions_final(x['c'][0]) and not guarded:
+                problems.append('returns `%s` without a test that a child is a <final>' % ' '.join(fb.text(x['c'][0]).split())[:40])
+    rep.check(not problems, rule, 'isInFinal|COMPOUND', locstr(ca['node']), 'a compound state is in a final state %s' % (
+        'only through an active child that is a <final>' if not problems else 'by a wider test: ' + '; '.join(problems) + ' -- done.state.<parallel> is then raised although a region is not final (the fast engine tests the bits of final children)'))
+
+
+
 def fast_conflict_terms(fb, fi_):
     """terms under which FastMicroStep::init stores `true` into the conflict matrix.  Form-independent: a leaf condition of
     the per-pair loop is a term iff on every CFG path on which it evaluates to true the value stored into conflicts[j] is true
@@ -269,50 +341,8 @@ def run(rep, tier):
     both('members re-initialised by reset()', cov[L], cov[F])
     both('serialization keys (written, read)', tuple(k for k in keys_[L]), tuple(k for k in keys_[F]), detail=lambda x: str(x)[:200])
 
-    # ---- R03.3 isInFinal: pseudo-states are neutral in the conjunction over a parallel's children
-    iif = fb.fn('uscxml::LargeMicroStep::isInFinal')
-    sw = [n for n in iif.walk() if n['k'] == 'SwitchStmt']
-    if not sw:
-        raise AnalysisBroken('LargeMicroStep::isInFinal: switch over the state kind not found')
-    arms = tab.switch_arms(sw[0])
-    tail_returns = [tab.const_of(n['c'][0]) for n in (iif.d['body'].get('c') or []) if n['k'] == 'ReturnStmt' and n.get('c')]
-
-    def arm_returns(a):
-        vals = []
-        for st in a['eff']:
-            for x in sub(st):
-                if x['k'] == 'ReturnStmt' and x.get('c'):
-                    vals.append(tab.const_of(x['c'][0]))
-        if not tab.ends_control(a['eff']) or (a['eff'] and a['eff'][-1]['k'] == 'BreakStmt' and not vals):
-            vals += tail_returns      # falls out of the switch to the function's trailing return
-        return vals
-    def kinds(a):
-        out = set()
-        x = a['node']
-        while x is not None and x['k'] in ('CaseStmt', 'DefaultStmt'):
-            if x['k'] == 'CaseStmt':
-                out |= {m[0] for s_ in sub(x['c'][0]) for m in (s_.get('mac') or []) if m[0].startswith('USCXML_STATE_')}
-            x = x['c'][-1] if x.get('c') else None
-        return out
-    explicit = {}
-    dflt = None
-    for a in arms:
-        for k_ in kinds(a):
-            explicit[k_] = a
-        if a['default']:
-            dflt = a
-    for k_ in ('USCXML_STATE_HISTORY_DEEP', 'USCXML_STATE_HISTORY_SHALLOW'):
-        a = explicit.get(k_, dflt)
-        vals = arm_returns(a) if a is not None else tail_returns
-        rep.check(bool(vals) and all(v == 1 for v in vals), 'R03.3', 'isInFinal|' + k_[13:], locstr(a['node']) if a is not None else iif.where(),
-                  'a history pseudo-state among a parallel\'s children counts as %s in LargeMicroStep::isInFinal (it must be neutral, i.e. true: the fast engine never sees pseudo-states in the configuration)' % vals)
-    want = {'USCXML_STATE_FINAL': [1], 'USCXML_STATE_ATOMIC': [0]}
-    for k_, w in want.items():
-        a = explicit.get(k_)
-        if a is None:
-            raise AnalysisBroken('isInFinal: no arm for %s' % k_)
-        rep.check(arm_returns(a) == w, 'R03.3', 'isInFinal|' + k_[13:], locstr(a['node']), 'kind %s returns %s' % (k_[13:], arm_returns(a)))
-
+    # ---- R03.3
+    in_final_rules(rep, fb, 'R03.3')
     # ---- R03.4 conflict definition: the fast engine's matrix uses the terms of Predicates.cpp::conflicts
     fi_ = fb.fn('uscxml::FastMicroStep::init')
     terms, n_stores = fast_conflict_terms(fb, fi_)
